@@ -65,6 +65,8 @@ def prepare(scratch, units, tier="quick"):
                     expr = mms[0].group(1)
                     for a, b in ex.get("subst", {}).items():
                         expr = expr.replace(a, b)   # optional renamings of generic constants to parameters
+                    if ex.get("wrap"):
+                        expr = ex["wrap"] % expr    # the captured text is placed into the stated context
                     parts.append("// sub-expression slice of %s :: %s : capture %r (renamings %s)\npub %s {\n    %s\n}\n"
                                  % (ex["file"], " :: ".join(ex["item"]), ex["capture"], ex.get("subst", {}), ex["as_fn"], expr))
                     edits.append("extract the sub-expression captured by %r from %s :: %s as `%s` (rest of the function dropped; renamings %s)"
